@@ -320,6 +320,14 @@ impl AcctOracles {
                                         format!("folder {f} is still {:?} after change_cipher to {:?}", v.cipher(), want),
                                     );
                                 }
+                                let want_kdf = kdf_of(ju64(s, "kdf"));
+                                if v.kdf() != &want_kdf {
+                                    rec.violate(
+                                        "C12",
+                                        &format!("C12/{backend}/change_cipher/folder_keeps_old_kdf"),
+                                        format!("folder {f} is still {:?} after change_cipher to {:?}", v.kdf(), want_kdf),
+                                    );
+                                }
                                 if let Some((ok, ov)) = b.all_old.get(&f) {
                                     if ov.cipher() != &want || ov.kdf() != v.kdf() {
                                         self.check_old_key_dead(dev, &f, ok, ov, rec, "change_cipher", false).await;
